@@ -780,6 +780,8 @@ class NpyArray:
         # Reset length
         self.shape = (length, ) + self.shape[1:]
         self._prepare_header_data()
+        # Shrink the header before the data so that the file stays loadable at every point
+        self._write_header_data()
 
         self.fs.seek(self.header_length + self.size * self.itemsize)
         self.fs.truncate()
